@@ -18,3 +18,9 @@ add('C12', 'exhaustive enumeration of the unit tables (pairs, triples, cross-typ
     'are checked by number vs symbol, and random numeric arguments / compositions exercise linearity. Finite part exhaustive; numeric part exploration.',
     'Trusted: literal precision is read from constants.py with ast (<=2 significant digits = exact, floor 1e-9); periodic table Z->symbol in the harness.',
     'DESIGN.md 3/C12')
+add('C14', 'Hypothesis grammar-based strings + differential reference parser (exact rationals), print/parse round-trip, constructed balanced/unbalanced reactions',
+    'Reaction strings are generated from the stated grammar (names, omitted/integer/decimal coefficients, blanks, 10 delimiter pairs, TS) and parsed by pMuTT and by an '
+    'independent reference parser in exact rationals; Reaction objects are printed with every format and parsed back (also through a RING file); element balance is decided '
+    'exactly in rationals on reactions constructed to balance and on perturbed ones; formulas are compared with their own token lists. Exploration only.',
+    'Trusted: the reference parser/tokeniser in vf/p14.py; names never contain a delimiter; imbalances in (0,1e-6) relative are not generated.',
+    'DESIGN.md 3/C14')
